@@ -54,6 +54,7 @@ type Thread struct {
 	// reader/writer bookkeeping
 	snap    *engine.SpecState // what a reader must see
 	inTx    bool              // currently holds a transaction
+	txStack []bool            // open transactions of this goroutine (true = write)
 	moreTx  int               // transactions still to begin
 }
 
@@ -93,10 +94,33 @@ func (s *Sys) fail(prop, kind, format string, a ...interface{}) {
 }
 
 // parkPoints are the hook points at which controlled goroutines stop.
+// txStack entries: true = write transaction
 var parkPoints = map[string]bool{"begin-wait": true, "commit-pending": true, "commit-wait-exclusive": true, "commit-exclusive": true, "op": true, "close-wait": true}
 
 // hook is installed as engine.PointHook.
 func (s *Sys) hook(name string, args ...uint64) {
+	if name == "begin-locked" || name == "tx-close" {
+		s.mu.Lock()
+		if t := s.byGid[goid()]; t != nil {
+			if name == "begin-locked" {
+				rw := len(args) > 0 && args[0] == 0
+				t.txStack = append(t.txStack, rw)
+				if rw {
+					s.writers++
+					if s.writers > 1 {
+						s.Failures = append(s.Failures, engine.Failure{Prop: "C09", Kind: "two-writers", Msg: fmt.Sprintf("%d write transactions hold the reserved lock at once", s.writers)})
+					}
+				}
+			} else if n := len(t.txStack); n > 0 {
+				if t.txStack[n-1] {
+					s.writers--
+				}
+				t.txStack = t.txStack[:n-1]
+			}
+		}
+		s.mu.Unlock()
+		return
+	}
 	if !parkPoints[name] {
 		return
 	}
@@ -321,6 +345,24 @@ func (s *Sys) record(tid int, what string) {
 // yield parks the calling thread at an operation boundary.
 func (s *Sys) yield(t *Thread) { s.park(t, "op", 0) }
 
+// Yield is yield for thread bodies defined outside this package.
+func (s *Sys) Yield(t *Thread) { s.yield(t) }
+
+// Fail records a failure from a thread body.
+func (s *Sys) Fail(prop, kind, format string, a ...interface{}) { s.fail(prop, kind, format, a...) }
+
+// SetTx updates the bookkeeping used to decide when File.Close may be scheduled.
+func (s *Sys) SetTx(t *Thread, inTx bool, more int) {
+	s.mu.Lock()
+	t.inTx, t.moreTx = inTx, more
+	s.mu.Unlock()
+}
+
+// NewEmptySys creates a system around an already opened file.
+func NewEmptySys(r *engine.RNG, f *txfile.File, d *simdisk.Disk, cfg engine.Config) *Sys {
+	return &Sys{F: f, Disk: d, Cfg: cfg, Markers: map[string]int{}, rng: r, committed: engine.SpecState{Pages: map[uint64]engine.Content{}}}
+}
+
 // ---------------------------------------------------------------------------
 // thread bodies
 
@@ -373,8 +415,12 @@ func (s *Sys) ReaderBody(checks int) func(t *Thread) {
 		s.mu.Lock()
 		t.inTx, t.moreTx = true, 0
 		s.mu.Unlock()
-		// the snapshot is the last commit completed before the lock was granted;
-		// only one thread runs at a time, so it is the spec state right now
+		// A reader woken up by a finishing commit runs concurrently with the
+		// committing thread until both are parked again: park first, then take the
+		// snapshot. No commit can complete while this reader holds the shared
+		// lock, so the spec state at that point is the last commit completed
+		// before the lock was granted.
+		s.yield(t)
 		s.mu.Lock()
 		t.snap = s.specCopy()
 		s.mu.Unlock()
@@ -402,10 +448,9 @@ func (s *Sys) WriterBody(r *engine.RNG, txs int) func(t *Thread) {
 			}
 			s.mu.Lock()
 			t.inTx, t.moreTx = true, txs-n-1
-			s.writers++
-			if s.writers > 1 {
-				s.Failures = append(s.Failures, engine.Failure{Prop: "C09", Kind: "two-writers", Msg: fmt.Sprintf("%d write transactions active at once", s.writers)})
-			}
+			s.mu.Unlock()
+			s.yield(t) // woken by a finishing writer: wait until it has published its commit
+			s.mu.Lock()
 			base := s.specCopy()
 			s.mu.Unlock()
 			next := &engine.SpecState{Root: base.Root, Pages: base.Pages}
@@ -500,7 +545,6 @@ func (s *Sys) WriterBody(r *engine.RNG, txs int) func(t *Thread) {
 			}
 			_ = cerr
 			s.mu.Lock()
-			s.writers--
 			t.inTx = false
 			s.mu.Unlock()
 		}
